@@ -53,8 +53,8 @@ It holds of the empty cache and is preserved by everything the model can do. -/
 
 theorem C13_ledger_init : LedgerOK ({} : St) := LedgerOK.init
 
-/-- every loader program: nested loads, `load_owned`, failures, panics, fuel exhaustion, helper
-threads, `no_record` -/
+/-- every loader program: nested loads, `load_owned`, `get_or_insert` (also into the very slot that is
+being loaded), failures, panics, fuel exhaustion, helper threads, `no_record` -/
 theorem C13_ledger_eval (env : Env) (f : Nat) (s : St) (p : Prog) : LedgerOK s → LedgerOK (eval env f s p).1 :=
   eval_ledger env f s p
 
@@ -155,5 +155,35 @@ example : (runH 6 [(exEnvRec, .api (.load exA))] ({}, {})).1.made.length = 2 ∧
     (runH 6 [(exEnvRec, .api (.load exA))] ({}, {})).1.held = [(0, 0)] ∧
     (runH 6 [(exEnvRec, .api (.load exA))] ({}, {})).1.gone = [1] ∧
     (runH 6 [(exEnvRec, .api (.load exA))] ({}, {})).1.dropped = [1] := by decide
+
+/-- **Re-entrant fill of the slot being loaded** (an insertion race without threads): the loader of
+type 0 stores a provisional value in ITS OWN slot with `get_or_insert`, then loads its child (type 1,
+same id), whose loader loads the parent back — a hit on the provisional entry. When the parent's load
+returns, the slot is occupied: keep-first drops the late value with its entry. -/
+def exEnvReent : Env :=
+  { read := fun _ _ _ => .ok [], readDir := fun _ _ => .ok [],
+    types := fun ty =>
+      { hot := true,
+        prog := fun id =>
+          if ty = 0 then
+            .getOrInsert ⟨0, id⟩ (.int 100) fun v => .load ⟨1, id⟩ fun r =>
+              match r with
+              | .ok w => .ret (.int (valInt v + valInt w))
+              | .error e => .fail e
+          else .load ⟨0, id⟩ Prog.ret' },
+    hasReloader := true }
+
+/-- three values created: the provisional one (held by the parent's entry at address 0, which every
+handle refers to), the child's (held at address 1), and the late result 200 of the parent's loader —
+dropped at once with its entry (address 2), never stored -/
+example : (runH 9 [(exEnvReent, .api (.load exA))] ({}, {})).1.made.length = 3 ∧
+    (runH 9 [(exEnvReent, .api (.load exA))] ({}, {})).1.held = [(0, 0), (1, 1)] ∧
+    (runH 9 [(exEnvReent, .api (.load exA))] ({}, {})).1.gone = [2] ∧
+    (runH 9 [(exEnvReent, .api (.load exA))] ({}, {})).1.dropped = [2] ∧
+    (runH 9 [(exEnvReent, .api (.load exA))] ({}, {})).1.lookup exA = some ⟨.int 100, false, 0, false, 0⟩ ∧
+    (step exEnvReent 9 {} (.load exA)).2 = .handle 0 (.int 100) := by decide
+
+example : LedgerOK (runH 9 [(exEnvReent, .api (.load exA))] ({}, {})).1 :=
+  C13_ledger_history 9 _ ({}, {}) C13_ledger_init
 
 end AmVerif.Props.C13
